@@ -32,12 +32,14 @@ RULE = ("cases: random scripts over acquire/release/sleep/wait with 1..3 locks i
         "blocked a waiter.  distinct = hash of the canonical case")
 
 KINDS = {
+    "eff-raises": "effective_priority() returns a value (acyclic wait-for graph)",
     "eff-mismatch": "effective_priority() == min(own, priorities of all tasks transitively waiting on held locks)",
     "holder-less-urgent": "the holder of a lock is at least as urgent as every task waiting for it",
     "inversion-on-priority-loop": "no runnable task less urgent than a waiter W runs before a runnable "
                                   "holder that blocks W",
 }
 THEOREM = {
+    "eff-raises": "Asynkit.C11.eff_fuel_independent",
     "eff-mismatch": "Asynkit.C11.eff_closed_form",
     "holder-less-urgent": "Asynkit.C11.holder_at_least_as_urgent",
     "inversion-on-priority-loop": "Asynkit.C11.inherit_immediate",
